@@ -85,7 +85,7 @@ std::string object_tree(YR_OBJECT* o) { std::string s; walk(o, s, 0); return s; 
 
 int recorder_callback(YR_SCAN_CONTEXT* ctx, int msg, void* data, void* user) {
   Recorder& r = *(Recorder*) user;
-  if (msg == CALLBACK_MSG_TOO_SLOW_SCANNING && r.skip_too_slow) { r.too_slow++; return CALLBACK_CONTINUE; }
+  if (msg == CALLBACK_MSG_TOO_SLOW_SCANNING && r.skip_too_slow) { r.too_slow++; return r.too_slow_reply; }
   int idx = r.nmsgs++;
   r.kinds.push_back(msg);
   std::string& t = r.text;
